@@ -652,6 +652,40 @@ func (g *gen) conds(t *ast.Definition) []string {
 	return cs
 }
 
+// subscriptionSel: the selection set of a subscription operation - exactly one root field (gqlparser's
+// SingleFieldSubscriptions rule; the generated executor refuses anything else after the gate), reached directly, through an
+// inline fragment or through a named fragment on the root; arguments literal / null / variable / absent as everywhere.
+func (g *gen) subscriptionSel(t *ast.Definition, depth int) string {
+	var fds []*ast.FieldDefinition
+	for _, fd := range t.Fields {
+		if !strings.HasPrefix(fd.Name, "__") {
+			fds = append(fds, fd)
+		}
+	}
+	fd := fds[g.r.Below(len(fds))]
+	al := ""
+	if g.r.Below(3) == 0 {
+		g.nAlias++
+		al = fmt.Sprintf("a%d: ", g.nAlias)
+	}
+	s := al + fd.Name + g.argList(fd)
+	if rt := g.schema.Types[fd.Type.Name()]; composite(rt) {
+		s += " " + g.selSet(rt, depth-1)
+	}
+	switch g.r.Below(6) {
+	case 0:
+		return "{ ... on " + t.Name + " { " + s + " } }"
+	case 1:
+		g.nFrag++
+		name := fmt.Sprintf("F%d", g.nFrag)
+		g.frags = append(g.frags, "fragment "+name+" on "+t.Name+" { "+s+" }")
+		g.fragType[name] = t.Name
+		g.fragList = append(g.fragList, name)
+		return "{ ..." + name + " }"
+	}
+	return "{ " + s + " }"
+}
+
 func (g *gen) selSet(t *ast.Definition, depth int) string {
 	n := 1 + g.r.Below(4)
 	if depth <= 0 {
@@ -760,7 +794,14 @@ func genOp(r *rng.R, schema *ast.Schema, maxDepth int) *opCase {
 	if schema.Mutation != nil && r.Below(12) == 0 {
 		root, kw = schema.Mutation, "mutation"
 	}
-	body := g.selSet(root, 1+r.Below(maxDepth))
+	var body string
+	if schema.Subscription != nil && kw == "query" && r.Below(5) == 0 {
+		// the ROOT dimension: a subscription (schemas of the generated-server projects have the three roots)
+		root, kw = schema.Subscription, "subscription"
+		body = g.subscriptionSel(root, 1+r.Below(maxDepth))
+	} else {
+		body = g.selSet(root, 1+r.Below(maxDepth))
+	}
 	decl := ""
 	if len(g.varDecls) > 0 {
 		decl = "(" + strings.Join(g.varDecls, ", ") + ")"
